@@ -1029,8 +1029,38 @@ def start_nodes_used_as_selected(ctx: Ctx):
         raise AnalysisError(f"select_start_nodes call sites lost: {sites} < 3")
 
 
+def incumbents_copied_row_by_row(ctx: Ctx):
+    """C12.i DeepACO keeps, per instance, the best rollout found over the iterations (`final_actions[b]`, `final_reward[b]`).  An
+    incumbent is replaced row by row: wherever a per-instance store is written at index v inside a loop over instance ids, the value
+    is read from the candidate at the SAME index v (and a masked tensor assignment uses one index expression on both sides).
+    `final_actions[index] = best_actions[i]` with i the position in the compacted list of improved ids hands instance `index` the
+    rollout of another instance while its reward stays right."""
+    import ast
+    rel = "rl4co/models/zoo/deepaco/antsystem.py"
+    fi = ctx.repo.get_function(rel, "AntSystem._update_results")
+    if fi is None:
+        raise AnalysisError("AntSystem._update_results not found")
+    ctx.fn(fi)
+    n = 0
+    for st in ast.walk(fi.node):
+        if not (isinstance(st, ast.Assign) and len(st.targets) == 1 and isinstance(st.targets[0], ast.Subscript) and isinstance(st.value, ast.Subscript)):
+            continue
+        t, v = st.targets[0], st.value
+        if not (isinstance(t.value, ast.Attribute) and isinstance(t.value.value, ast.Name) and t.value.value.id == "self"):
+            continue
+        n += 1
+        ok = ast.dump(t.slice) == ast.dump(v.slice)
+        ctx.ob("C12.i", f"AntSystem._update_results:self.{t.value.attr}:same-row-on-both-sides", ok, f"{rel}:{st.lineno}",
+               f"`{ast.unparse(st)[:80]}`: store index `{ast.unparse(t.slice)}`, source index `{ast.unparse(v.slice)}`" +
+               ("" if ok else " -- the incumbent of one instance is replaced by the candidate of another row"),
+               construct=f"AntSystem._update_results:incumbent-row:{t.value.attr}")
+    if n < 2:
+        raise AnalysisError(f"AntSystem._update_results: {n} incumbent stores found (2 confirmed by hand: final_actions, final_reward)")
+
+
 def run(ctx: Ctx):
     helpers(ctx)
+    incumbents_copied_row_by_row(ctx)
     n1 = einops_sites(ctx)
     n2 = arange_sites(ctx)
     factor_sites(ctx)
